@@ -176,6 +176,17 @@ func c11Scenarios(tier string) []e1lib.Scenario {
 	for cp := 0; cp <= 2; cp++ {
 		for _, f := range []int{1, 3} {
 			scripts := gapScripts([]int{0, f, 2 * f}, maxLen)
+			if f > 1 {
+				// a consumer that is late by between one and two ticks at one point (drift-compensating pacers go wrong there)
+				for at := 0; at < 3; at++ {
+					g := []int{0, 0, 0, 0, 0}
+					g[at] = f + 1
+					scripts = append(scripts, g)
+					g2 := append([]int{}, g...)
+					g2[at] = 2*f - 1
+					scripts = append(scripts, g2)
+				}
+			}
 			for _, gaps := range scripts {
 				add(timed.Cfg{Kind: "emit", Cap: cp, Freq: f, Mode: "pure", ConsGaps: gaps, CancelAt: -1})
 				// Try mode with failing index subsets of {0..3}
